@@ -212,7 +212,7 @@ func (g *Gen) lineString() geom.LineString {
 	pts := make([][2]int, 0, n+1)
 	cur := g.pt()
 	pts = append(pts, cur)
-	for len(pts) < n {
+	for guard := 0; len(pts) < n && guard < 8*n+64; guard++ {
 		var nx [2]int
 		if s.Intn(3, "ls/step") == 0 {
 			nx = g.pt()
